@@ -318,29 +318,37 @@ def occupancy_job_replay(params, inputs):
 # --------------------------------------------------------------------------- rates (aggregation over time parts)
 
 
-def _rates_setup(jm, tr, s, T, A):
+def _rates_setup(jm, tr, s, T, A, inner=None):
     from pymatgen.core import Structure
     from harness import c19
-    ev = tr._calculate_transition_events(atom_sites=s, atom_inner_sites=s)
+    inner = s if inner is None else inner
+    ev = tr._calculate_transition_events(atom_sites=s, atom_inner_sites=inner)
     traj = c19._traj(T, A)
     sites = Structure(np.eye(3) * 5.0, ['Li'] * 3, [[0.1, 0.1, 0.1], [0.5, 0.1, 0.1], [0.1, 0.5, 0.5]], labels=['A', 'A', 'B'])
-    t = tr.Transitions(trajectory=traj, diff_trajectory=traj, sites=sites, events=ev, states=s, inner_states=s)
+    t = tr.Transitions(trajectory=traj, diff_trajectory=traj, sites=sites, events=ev, states=s, inner_states=inner)
     return t, traj
 
 
 def rates_job(params):
     """Jumps.rates(n_parts): the per-label-pair rate is the mean part count / (atoms x part time), and the part counts are a
-    consistent aggregation of the whole counter (never more than it)."""
+    consistent aggregation of the whole counter (never more than it).  With `m` given, the inner-site states are symbolic as well
+    (NOSITE or equal to the outer state) and the jumps are built with minimal_residence=m, which the parts must inherit."""
     import gemdat.jumps as jm
     import gemdat.transitions as tr
-    T, A, n_parts = params['T'], params['A'], params['n_parts']
+    T, A, n_parts, m = params['T'], params['A'], params['n_parts'], params.get('m')
 
     def body():
         s = S([[sym_int(f's_{t}_{a}', NOSITE, 2) for a in range(A)] for t in range(T)])
+        inner = None
+        if m is not None:
+            inner = S([[sym_int(f'i_{t}_{a}', NOSITE, 2) for a in range(A)] for t in range(T)])
+            for t_ in range(T):
+                for a in range(A):
+                    assume((inner[t_, a] == NOSITE) | (inner[t_, a] == s[t_, a]))
         assume(disj([s[t, a] != s[t + 1, a] for t in range(T - 1) for a in range(A)]))
         try:
-            t, traj = _rates_setup(jm, tr, s, T, A)
-            jumps = jm.Jumps(t)
+            t, traj = _rates_setup(jm, tr, s, T, A, inner)
+            jumps = jm.Jumps(t, minimal_residence=m or 0)
         except ValueError as e:
             if 'No jumps found' in str(e):
                 return
@@ -369,11 +377,12 @@ def rates_job(params):
 def rates_job_replay(params, inputs):
     import gemdat.jumps as jm
     import gemdat.transitions as tr
-    T, A, n_parts = params['T'], params['A'], params['n_parts']
+    T, A, n_parts, m = params['T'], params['A'], params['n_parts'], params.get('m')
     s = np.array([[int(inputs[f's_{t}_{a}']) for a in range(A)] for t in range(T)], dtype=int)
+    inner = None if m is None else np.array([[int(inputs[f'i_{t}_{a}']) for a in range(A)] for t in range(T)], dtype=int)
     try:
-        t, traj = _rates_setup(jm, tr, s, T, A)
-        jumps = jm.Jumps(t)
+        t, traj = _rates_setup(jm, tr, s, T, A, inner)
+        jumps = jm.Jumps(t, minimal_residence=m or 0)
         whole = jumps.counter()
         rates = jumps.rates(n_parts)
     except ValueError as e:
@@ -382,7 +391,8 @@ def rates_job_replay(params, inputs):
     for pair in jumps.site_pairs:
         tot = float(rates.loc[pair, 'rates']) * denom * n_parts
         if round(tot) > whole[pair] or abs(tot - round(tot)) > 1e-6:
-            return False, f'rates imply {tot} jumps {pair} over the parts but the whole has {whole[pair]}; states={s.T.tolist()} n_parts={n_parts}'
+            return False, (f'rates imply {tot} jumps {pair} over the parts but the whole has {whole[pair]}; states={s.T.tolist()} '
+                           f'inner={None if inner is None else inner.T.tolist()} minimal_residence={m or 0} n_parts={n_parts}')
     return True, 'ok'
 
 
@@ -486,4 +496,6 @@ def jobs(tier, seed):
         js.append(dict(name=f'graph_T{T}_A{A}', fn='graph_job', params=dict(T=T, A=A)))
     for T, A, n in ([(4, 1, 2), (5, 1, 2)] if tier == 'quick' else [(4, 1, 2), (5, 1, 2), (6, 1, 2), (6, 1, 3)]):
         js.append(dict(name=f'rates_T{T}_A{A}_p{n}', fn='rates_job', params=dict(T=T, A=A, n_parts=n)))
+    for T, A, n, m in ([(4, 1, 1, 3), (4, 1, 2, 2)] if tier == 'quick' else [(4, 1, 1, 3), (4, 1, 2, 2), (5, 1, 2, 2), (5, 1, 1, 3), (5, 1, 1, 4)]):
+        js.append(dict(name=f'rates_T{T}_A{A}_p{n}_inner_m{m}', fn='rates_job', params=dict(T=T, A=A, n_parts=n, m=m)))
     return js
